@@ -302,7 +302,8 @@ type World struct {
 	staleNonce  string
 	noRetry     bool
 	down        bool
-	gate        func(point string) // Engine G: call-outs park here
+	gate        func(point string)     // Engine G: call-outs park here
+	slowDeleted func(kind, key string) // real-time ledger driver: OnPermissionDeleted / OnChannelDeleted take their time
 	evSeen      int
 	step        int
 	gen         *memGen
@@ -434,6 +435,9 @@ func NewWorld(meta Meta, seed int64) (*World, error) {
 		peers: map[string]*MemConn{}, peerKey: map[string]peerKeyT{}, relayOwner: map[string]string{}, relayOf: map[string]*net.UDPAddr{},
 		curPay: map[string][]byte{}, allocTxid: map[string][stun.TransactionIDSize]byte{},
 		tokenOf: map[string]string{}, evenPort: map[string]int{}, held: map[string]int{},
+	}
+	if ms := toInt(meta.Extra["tick_ms"]); ms > 0 {
+		w.Tick = time.Duration(ms) * time.Millisecond // (real-time drivers with short timeouts)
 	}
 	srv4 := &net.UDPAddr{IP: net.IPv4(10, 0, 0, 1).To4(), Port: 3478}
 	srv6 := &net.UDPAddr{IP: net.ParseIP("fd00::1"), Port: 3478}
@@ -819,6 +823,9 @@ func (w *World) eventHandler() turn.EventHandler {
 			w.ev("perm+", w.clientName(src)+"|"+w.ipName(peer))
 		},
 		OnPermissionDeleted: func(src, _ net.Addr, _, _, _ string, _ net.Addr, peer net.IP) {
+			if w.slowDeleted != nil {
+				w.slowDeleted("perm-", w.ipName(peer)) // (real-time driver only: the operator's callback is slow)
+			}
 			w.ev("perm-", w.clientName(src)+"|"+w.ipName(peer))
 		},
 		OnChannelCreated: func(src, _ net.Addr, _, _, _ string, _, peer net.Addr, n uint16) {
@@ -828,6 +835,9 @@ func (w *World) eventHandler() turn.EventHandler {
 			w.ev("chan+", fmt.Sprintf("%s|%v|%d", w.clientName(src), w.peerName(peer), n))
 		},
 		OnChannelDeleted: func(src, _ net.Addr, _, _, _ string, _, peer net.Addr, n uint16) {
+			if w.slowDeleted != nil {
+				w.slowDeleted("chan-", fmt.Sprint(n))
+			}
 			w.ev("chan-", fmt.Sprintf("%s|%v|%d", w.clientName(src), w.peerName(peer), n))
 		},
 	}
